@@ -31,14 +31,14 @@ LEVEL_NOTE = ('A window end that coincides with a tabulated wavelength may inclu
 RULE = ("cases: package configurations; executions: one call per (chunk size, window), one evaluation per file checked; a state is (configuration, window, chunk); non-trivial = distinct "
         "(configuration, window, chunk) whose window holds at least one wavelength and whose chunk size is smaller than the number of wavelengths in the window or divides it")
 ASSUMPTIONS = ["all SED files of a package share one wavelength grid", "window ends exactly on a tabulated wavelength are ambiguous"]
-REQUIRED_CLASSES = ['one-sided-window', 'seds-regenerated-then-convolved-with-overwrite', 'chunk-divides-range', 'chunk-does-not-divide-range', 'chunk==1', 'single-wavelength-window', 'empty-window', 'default-window', 'window-end-on-wavelength',
+REQUIRED_CLASSES = ['sorted-table-with-prefix-names', 'one-sided-window', 'seds-regenerated-then-convolved-with-overwrite', 'chunk-divides-range', 'chunk-does-not-divide-range', 'chunk==1', 'single-wavelength-window', 'empty-window', 'default-window', 'window-end-on-wavelength',
                     'permuted-parameter-table', 'multi-aperture', 'sed-files-wav-ascending', 'seds-in-subdirs-and-gz', 'seds-stored-in-erg/cm2/s', 'convolved-again-after-listing', 'cube-nearest', 'cube-midway', 'cube-outside', 'cube-wavelength-in-other-unit']
 TIMEOUT = {'quick': 600, 'thorough': 3000}
 
 
 def setup(tier, seed):
     nmax = 5 if tier == 'quick' else 9
-    axes = {'n_ap': [2, 1, 3], 'n_models': [3, 1, 5], 'perm': ['identity', 'reversed', 'rotated'], 'sord': ['wav-desc', 'wav-asc'], 'layout': ['flat', 'subdir+gz'], 'funit': ['mJy', 'erg/cm2/s']}
+    axes = {'n_ap': [2, 1, 3], 'n_models': [3, 1, 5], 'perm': ['identity', 'reversed', 'rotated', 'sorted-prefix'], 'sord': ['wav-desc', 'wav-asc'], 'layout': ['flat', 'subdir+gz'], 'funit': ['mJy', 'erg/cm2/s']}
     out = []
     for n_wav in range(2, nmax + 1):
         for c in deviation_bounded(axes, 2 if (n_wav <= 3 or (tier == 'thorough' and n_wav <= 6)) else 1):
@@ -94,12 +94,17 @@ def run_case(ctx, case, rec, d):
     w_asc = 1.0 * 1.5 ** np.arange(n_wav)
     wav_file = w_asc if case['sord'] == 'wav-asc' else w_asc[::-1]
     names = ['mono_%s' % 'dbaec'[i] for i in range(n_models)]
-    if n_models >= 3:
+    if n_models >= 3 and case['perm'] != 'sorted-prefix':
         names[2] = 'mono_a_name_of_thirty_chars_' + names[2][-2:]          # exactly the 30 characters of the name column
         assert len(names[2]) == 30
-    perm = {'identity': list(range(n_models)), 'reversed': list(range(n_models))[::-1], 'rotated': [(i + 1) % n_models for i in range(n_models)]}[case['perm']]
+    if case['perm'] == 'sorted-prefix':
+        # a parameter table that IS in alphabetical order, with names that are prefixes of one another: the SED files
+        # (m10_sed.fits before m1_sed.fits) come in another order than the names
+        names = ['m1', 'm10', 'm2', 'm20', 'm3'][:n_models]
+        rec.cls('sorted-table-with-prefix-names')
+    perm = {'identity': list(range(n_models)), 'reversed': list(range(n_models))[::-1], 'rotated': [(i + 1) % n_models for i in range(n_models)], 'sorted-prefix': list(range(n_models))}[case['perm']]
     ap = None if n_ap == 1 else 100.0 * 10.0 ** np.arange(n_ap)
-    cell = lambda m, a, wi: 1000.0 * (m + 1) + 10.0 * (a + 1) + (wi + 1) / 64.0      # wi = index in w_asc
+    cell = lambda m, a, wi: 0.0 if (m == 1 and a == 0 and wi == 1) else 1000.0 * (m + 1) + 10.0 * (a + 1) + (wi + 1) / 64.0      # wi = index in w_asc; one cell holds zero flux (and zero error)
     md = os.path.join(d, 'pkg')
     os.makedirs(md)
     pkgwriter.write_conf(md, n_ap > 1, version=1)
